@@ -29,3 +29,24 @@ claimed["C06"] = (
     "trusts runtime.Stack's goroutine states; the SDK's two timer selects are recognised by function name (a run parked there is inconclusive, never a violation); statement-granularity single/pair pauses only",
     "DESIGN.md §1, §3 C06",
 )
+claimed["C05"] = (
+    "exploration",
+    "runtime differential monitor (Execute vs in-process CallStep on a fresh plugin) + offline event-log checker over tapped byte streams, under chunking transports, yield-point pauses and the race detector",
+    "Generated sessions (1..12 executes, serial/concurrent/staggered, valid and schema-rejected inputs, every handler behaviour, to-step signals) run against the real client and server over sync / buffered / chunked in-memory transports (and a fake ATP v1 server), with random pauses at yield points (overlay build) and again under -race. Every Execute result is compared with CallStep on a fresh identical plugin after CBOR normalisation; the tapped streams are re-parsed independently: framing, exactly one terminal message per started run, none for unknown runs, the run's nonce in its own result, no two writers inside Write at once. Held on the sessions explored (sampled).",
+    "handlers are pure functions of the input that embed the run's unique nonce; trusts fxamacker/cbor for the independent stream parse; sessions are sampled, not enumerated",
+    "DESIGN.md §3 C05",
+)
+claimed["C07"] = (
+    "fault_enumeration",
+    "scripted hostile client against the real RunATPServer under process supervision + quiescence deadlock monitor + offline checker of the tapped output (terminal messages per accepted run)",
+    "Directed scripts put every production of a client-behaviour grammar (malformed envelopes, undecodable CBOR, unknown step/signal/message IDs, duplicate run IDs, signals for unstarted runs, traffic after client-done) right after a valid (finished / still running / panicking) work-start; random scripts add mixtures. Each script is delivered whole (burst and one message per quiescent point), with gated steps released before or after end of input, with the output closed early, and cut at EVERY byte offset. A fatal crash of the worker, a recovered panic, a quiescent state in which RunATPServer has not returned, or a count of terminal messages per run that differs from the number of accepted work-starts (computed from the delivered bytes by an independent decoder) is a violation.",
+    "accepted = well-formed envelope with non-empty run and step ID delivered before client-done / first undecodable item / cut; output is a never-blocking pipe unless the case closes it; trusts fxamacker/cbor for the independent parse",
+    "DESIGN.md §3 C07",
+)
+claimed["C08"] = (
+    "fault_enumeration",
+    "transcript replay by a request-gated fake server with stream faults at every byte offset; quiescence monitor for hangs; intact-delivery oracle from message boundaries",
+    "Six server transcripts (v3 and v1; serial, concurrent with emitted signals and errors, server-fatal midway, trailing messages) and ten hellos that must be refused are replayed against the real client; the server->client stream is cut with EOF / read error / garbage tail at every offset of the runtime part and (thorough) of the hello, the write side fails independently from write #j. A recovered or fatal panic, a call that has not returned when every goroutine is blocked, or a success whose work-done (hello) did not end before the cut, or that differs from the transcript, is a violation.",
+    "a broken client->server stream is modelled as the server seeing end of input and closing its output; in-payload corruption is not demanded (only an all-0xff garbage tail makes 'not intact' decidable); the SDK's 5 s close timeout is waited for in real time",
+    "DESIGN.md §3 C08",
+)
